@@ -389,7 +389,17 @@ func (s *PassSpec) edge(f *FuncInfo, from *cfg.Block, k int, in FactSet) FactSet
 	}
 	info := f.Info()
 	val := k == 0
-	// Switch case clauses: go/cfg emits `tag == x` synthesized or the bare case expression; both fine.
+	// Compound conditions are also offered whole (for guarded forms such as `n > 0 && i >= n`).
+	if be, isB := ast.Unparen(cond).(*ast.BinaryExpr); isB && (be.Op == token.LAND || be.Op == token.LOR) {
+		for _, v := range s.Vias {
+			if v.Cond == nil {
+				continue
+			}
+			if id, passVal, ok := v.Cond(f, cond); ok && val == passVal {
+				in["pass:"+id] = true
+			}
+		}
+	}
 	for _, a := range Implied(cond, val) {
 		// error / pointer nil tests
 		if obj, nilOnTrue, ok := NilTest(info, a.E); ok {
